@@ -99,7 +99,7 @@ type stRun struct {
 }
 
 func (h *stRun) say(f string, a ...interface{}) { h.log = append(h.log, fmt.Sprintf(f, a...)) }
-func (h *stRun) hit(r string)                     { h.hits[r]++ }
+func (h *stRun) hit(r string)                   { h.hits[r]++ }
 func (h *stRun) fail(rule, class, f string, a ...interface{}) {
 	if h.viol != nil {
 		return
